@@ -4,7 +4,7 @@ from hypothesis import strategies as st
 from ECAgent.Core import Agent, Environment, Model
 from ECAgent.Environments import GridWorld, PositionComponent
 from vf.engine import Violation, InvalidCase
-from vf.fixtures import CompA, CompB, CompC, CompD, CompF, check, sized_lists, wone_of
+from vf.fixtures import maybe_complete, with_done, CompA, CompB, CompC, CompD, CompF, check, sized_lists, wone_of
 
 PROPERTY = "C13"
 BUDGET = {"quick": 4000, "thorough": 12000}
@@ -55,6 +55,7 @@ def run_case(case):
             env2.add_agent(a2)
         labels.add("second-environment-alive")
     for k, op in enumerate(case["ops"]):
+        maybe_complete(case, k, model, labels)
         where = f"after op {k} {op}"
         if op["op"] == "add":
             if len(pop) >= CAP:
@@ -261,7 +262,7 @@ def strategy(tier):
                          st.lists(add, min_size=n, max_size=n), st.integers(0, 2), st.lists(st.integers(0, 140), min_size=3, max_size=3),
                          st.sampled_from([None, 1, 7]), sized_lists(wone_of(toggle, toggle, retag, rem, q, q), 2, 6))}))
     small = _small(add, rem, retag, toggle, q)
-    return wone_of(*([small] * 14 + [crowd]))
+    return with_done(wone_of(*([small] * 14 + [crowd])))
 
 
 def _small(add, rem, retag, toggle, q):
